@@ -1284,7 +1284,7 @@ Proof. intros c L qs gs H. induction H; cbn; auto. Qed.
 
 (* re-simulation never panics *)
 Lemma resim_progress : forall n i p gs L mc o,
-  ps_sparse p = false -> connected (ps_status p) ->
+  connected (ps_status p) ->
   length (ps_status p) = length (s_queues (ps_sync p)) ->
   QsI (s_current (ps_sync p)) L (s_queues (ps_sync p)) gs -> all_clean (s_queues (ps_sync p)) ->
   0 <= s_current (ps_sync p) -> L <= s_current (ps_sync p) ->
@@ -1298,26 +1298,33 @@ Lemma resim_progress : forall n i p gs L mc o,
        nth_error (s_queues (ps_sync p')) h = Some q' -> s_current (ps_sync p') <= hlen (fst gh) ->
        pi_frame (q_pred q) = NULL -> pi_frame (q_pred q') = NULL).
 Proof.
-  induction n as [|n IH]; intros i p gs L mc o Hsp Hcon Hlen HQ Hcl Hc HL.
+  induction n as [|n IH]; intros i p gs L mc o Hcon Hlen HQ Hcl Hc HL.
   - cbn [resim_go]. exists p, o. split; [reflexivity|]. split; [exact HQ|]. split; [exact Hcl|].
     split; [apply same_user_refl|]. split; [reflexivity|]. split; [reflexivity|]. split; [cbn; lia|].
     intros h q gh q' A _ B _ Hn. rewrite A in B. injection B as <-. exact Hn.
   - cbn [resim_go]. unfold synchronized_inputs.
     destruct (sync_inputs_go_ok predict (ps_status p) (s_queues (ps_sync p)) gs (s_current (ps_sync p)) L HQ Hcl Hlen Hcon Hc HL)
       as (qs' & ins & E & HQ' & Hcl' & Hl' & _ & Hsu & Hkn).
-    rewrite E. cbn [res_bind]. rewrite Hsp.
+    rewrite E. cbn [res_bind].
     set (s1 := with_queues (ps_sync p) qs').
-    assert (Hsave : exists s2 o2, (if 0 <? i then res_bind (save_current_state s1) (fun '(s2, r) => Ok (s2, add_req o r)) else Ok (s1, o)) = Ok (s2, o2) /\
+    assert (Hsave : exists s2 o2,
+               (if ps_sparse p then
+                  (if s_current s1 =? mc then res_bind (save_current_state s1) (fun '(s2, r) => Ok (s2, add_req o r)) else Ok (s1, o))
+                else
+                  (if 0 <? i then res_bind (save_current_state s1) (fun '(s2, r) => Ok (s2, add_req o r)) else Ok (s1, o))) = Ok (s2, o2) /\
                      s_queues s2 = qs' /\ s_current s2 = s_current (ps_sync p) /\ s_last_confirmed s2 = s_last_confirmed (ps_sync p)).
-    { destruct (0 <? i).
-      - unfold save_current_state. subst s1. cbn [with_queues s_current].
+    { assert (Hsv : exists s2 o2, res_bind (save_current_state s1) (fun '(s2, r) => Ok (s2, add_req o r)) = Ok (s2, o2) /\
+                     s_queues s2 = qs' /\ s_current s2 = s_current (ps_sync p) /\ s_last_confirmed s2 = s_last_confirmed (ps_sync p)).
+      { unfold save_current_state. subst s1. cbn [with_queues s_current].
         assert ((s_current (ps_sync p) <? 0) = false) as -> by lia. cbn [res_bind].
-        eexists; eexists. split; [reflexivity|]. repeat split.
-      - exists s1, o. split; [reflexivity|]. repeat split. }
+        eexists; eexists. split; [reflexivity|]. repeat split. }
+      assert (Hns : exists s2 o2, Ok (s1, o) = Ok (s2, o2) /\
+                     s_queues s2 = qs' /\ s_current s2 = s_current (ps_sync p) /\ s_last_confirmed s2 = s_last_confirmed (ps_sync p)).
+      { exists s1, o. split; [reflexivity|]. repeat split. }
+      destruct (ps_sparse p); [destruct (s_current s1 =? mc)|destruct (0 <? i)]; assumption. }
     destruct Hsave as (s2 & o2 & Es & Hq2 & Hc2 & HL2). rewrite Es. cbn [res_bind].
     set (p1 := with_sync p (advance_frame s2)).
     destruct (IH (i + 1) p1 gs L mc (add_req o2 (RAdvance ins))) as (p' & o' & E' & A1 & A2 & A3 & A4 & A5 & A6 & A7).
-    + exact Hsp.
     + exact Hcon.
     + subst p1. cbn [with_sync ps_status ps_sync advance_frame with_current s_queues]. rewrite Hq2.
       pose proof (QsI_length _ _ _ _ HQ'). pose proof (QsI_length _ _ _ _ HQ). lia.
@@ -1386,7 +1393,6 @@ Proof.
     as (s1 & g1 & El & _ & Hs1 & _ & _ & _).
   set (p1 := with_sync p (reset_all s1)).
   destruct (resim_progress predict (Z.to_nat (c - fi)) 0 p1 gs L mc (add_req o (RLoad fi))) as (p2 & o2 & Er & A1 & A2 & A3 & A4 & A5 & _ & A7).
-  - exact Hsp.
   - exact Hcon.
   - subst p1. rewrite Hs1. cbn [with_sync ps_status ps_sync reset_all with_queues s_queues with_current]. rewrite map_length. exact Hlen.
   - subst p1. rewrite Hs1. cbn [with_sync ps_sync reset_all with_queues s_queues s_current with_current].
@@ -1448,21 +1454,21 @@ Proof.
 Qed.
 
 (* raising the last confirmed frame *)
-Lemma confirm_progress : forall s gs cf,
+Lemma confirm_progress_gen : forall (s : sync) (gs : list ghost) (cf0 : Z) (sp : bool), let cf := (if sp then Z.min cf0 (s_last_saved s) else cf0) in
   QsI (s_current s) (s_last_confirmed s) (s_queues s) gs -> all_clean (s_queues s) ->
   s_last_confirmed s <= Z.min cf (s_current s) ->
   Forall (fun g => Z.min cf (s_current s) <= hlen (fst g) - 1) gs ->
-  exists s', set_last_confirmed_frame s cf false = Ok s' /\
+  exists s', set_last_confirmed_frame s cf0 sp = Ok s' /\ s_last_saved s' = s_last_saved s /\
     s_last_confirmed s' = Z.min cf (s_current s) /\ sync_frame s s' /\
     (exists gs', QsI (s_current s) (Z.min cf (s_current s)) (s_queues s') gs' /\ map fst gs' = map fst gs) /\
     all_clean (s_queues s') /\ same_user (s_queues s) (s_queues s') /\
     Forall2 (fun q q' => q_pred q' = q_pred q) (s_queues s) (s_queues s').
 Proof.
-  intros s gs cf HQ Hcl HL Hcf. unfold set_last_confirmed_frame.
+  intros s gs cf0 sp cf HQ Hcl HL Hcf. unfold set_last_confirmed_frame. fold cf.
   rewrite (max_fi_clean _ Hcl). cbn [Z.eqb NULL orb negb].
   set (L' := Z.min cf (s_current s)) in *.
-  eexists. split; [reflexivity|]. cbn [s_last_confirmed s_queues].
-  split; [reflexivity|]. split; [repeat split|].
+  eexists. split; [reflexivity|]. cbn [s_last_confirmed s_queues s_last_saved].
+  split; [reflexivity|]. split; [reflexivity|]. split; [repeat split|].
   assert (G : forall qs gs, QsI (s_current s) (s_last_confirmed s) qs gs -> all_clean qs ->
               Forall (fun g => L' <= hlen (fst g) - 1) gs ->
               let qs' := if 0 <? L' then map (fun q => discard_confirmed_frames q (L' - 1)) qs else qs in
@@ -1482,6 +1488,20 @@ Proof.
         split; [constructor; [exact B2|exact A2]|]. split; [constructor; [split; assumption|exact A3]|].
         constructor; [exact B5|exact A4]. }
   exact (G _ _ HQ Hcl Hcf).
+Qed.
+
+Lemma confirm_progress : forall s gs cf,
+  QsI (s_current s) (s_last_confirmed s) (s_queues s) gs -> all_clean (s_queues s) ->
+  s_last_confirmed s <= Z.min cf (s_current s) ->
+  Forall (fun g => Z.min cf (s_current s) <= hlen (fst g) - 1) gs ->
+  exists s', set_last_confirmed_frame s cf false = Ok s' /\
+    s_last_confirmed s' = Z.min cf (s_current s) /\ sync_frame s s' /\
+    (exists gs', QsI (s_current s) (Z.min cf (s_current s)) (s_queues s') gs' /\ map fst gs' = map fst gs) /\
+    all_clean (s_queues s') /\ same_user (s_queues s) (s_queues s') /\
+    Forall2 (fun q q' => q_pred q' = q_pred q) (s_queues s) (s_queues s').
+Proof.
+  intros s gs cf HQ Hcl HL Hcf.
+  destruct (confirm_progress_gen s gs cf false HQ Hcl HL Hcf) as (s' & A & _ & B). exists s'. split; [exact A|exact B].
 Qed.
 
 End Progress3.
